@@ -109,6 +109,24 @@ def requestToDnsMsg (unpack : Bytes → Option Msg) (method : String) (dnsVals :
     (ra ca : Option Bytes) : Option Msg :=
   ((unpackInput method dnsVals body).bind unpack).map (setClientSubnet ra ca)
 
+/-! ### response direction: `getTTL` / `DnsMsgToResponse` -/
+
+/-- `getTTL`: 0 without answers, else `ttl := Answer[0].Ttl; for i := 1.. { if ttl > Answer[i].Ttl { ttl = Answer[i].Ttl } }` -/
+def getTTL : List Nat → Nat
+  | [] => 0
+  | t :: rest => rest.foldl (fun ttl x => if ttl > x then x else ttl) t
+
+structure HttpResp where
+  status : Nat
+  contentType : String
+  maxAge : Nat
+  contentLength : Nat
+deriving DecidableEq, Repr
+
+/-- `DnsMsgToResponse` for a reply that packs to `packedLen` bytes (a reply that does not pack is an error) -/
+def dnsMsgToResponse (answerTTLs : List Nat) (packedLen : Option Nat) : Option HttpResp :=
+  packedLen.map fun n => ⟨200, "application/dns-message", getTTL answerTTLs, n⟩
+
 /-- the code before the C56 family fix: `if cip.To16() != nil` -/
 def familyOfOld (cip : Bytes) : Nat × Nat := if (to16 cip).isSome then (2, 128) else (1, 32)
 
